@@ -49,7 +49,7 @@ def cv_cases(rng, n):
             order = list(TAGS)
             rng.shuffle(order)
             order = order[:rng.randint(2, len(order))]
-        out.append((rng.choice(TAGS), rng.choice(['_', '5', '77']), kids, order))
+        out.append((rng.choice(TAGS), rng.choice(['_', '5', '77', 0.0, 0, False]), kids, order))
     return out
 
 
@@ -64,7 +64,7 @@ def cv_impl(c):
     outer = E.outer()
     for t, v in c[2]:
         outer.append(E(t, v))
-    _correctValInNode(outer, c[0], None if c[1] == '_' else c[1], c[3])
+    _correctValInNode(outer, c[0], None if (isinstance(c[1], str) and c[1] == '_') else c[1], c[3])
     return ' '.join('%s:%s' % (ch.tag.split('}')[-1], ch.text) for ch in outer)
 
 
